@@ -355,6 +355,9 @@ fn judge(rep: &mut Report, ctx: &mut Ctx, repo: &Repo, d: usize, job: &mut Job, 
             // binary: the "observation" of this operation is what GIT printed
             let gop = op.replacen("walk ", "gitorder ", 1);
             rep.case(&gop, &format!("seq:{}", join_idx(gs)), true);
+            // … and of the form the order theorems are stated about (Spec.C47.gitTopoOrder2)
+            let gop2 = op.replacen("walk ", "gitorder2 ", 1);
+            rep.case(&gop2, &format!("seq:{}", join_idx(gs)), true);
         }
         if let Some(gs) = &git_seq {
             if w.mode.first_parent() {
